@@ -2866,7 +2866,8 @@ def check_C14(tier):
     srcs.append(("alias:num", "%token NUM 299\n%token NE 300\n%token NEQ 300\n%token ID 300\n%start E\n%%\nE : E NE E | E NEQ NUM | ID | NUM ;\n%%\n"))
     # wide rows with an exact tie for the most frequent value (the default action of a packed row): in the state after A_j
     # K columns reduce x_j and the other K = 2 + J + M columns are empty; several such rows per grammar, several widths
-    for K in (12, 40, 70, 130):
+    # (the unpacked dense table of the 130-wide grammar takes about a minute to emit: thorough tier only)
+    for K in ((12, 40, 70) if tier == "quick" else (12, 40, 70, 100, 130)):
         J = 6
         M = K - 2 - J
         src = "%{\npackage main\n%}\n%union { v int }\n" + "".join("%%token A%d\n" % j for j in range(J)) + \
@@ -2884,17 +2885,24 @@ def check_C14(tier):
             for k in range(N):
                 jobs.append((si, oi, k, [cli, "generate"] + flags + [target, inp, os.path.join(work, "o_%d_%d_%d" % (si, oi, k))]))
 
-    def one(job):
+    DEADLINE14 = 600
+    UNFINISHED = "unfinished"
+
+    def one(job, deadline=DEADLINE14):
         si, oi, k, cmd = job
         if k == 1:
             # the output path already holds something longer (an earlier generation): the result must not depend on it
             with open(cmd[-1], "w") as f:
                 f.write("// earlier output\n" * 20000)
         try:
-            p = subprocess.run(cmd, stdout=subprocess.DEVNULL, stderr=subprocess.DEVNULL, timeout=60, cwd=work)
+            p = subprocess.run(cmd, stdout=subprocess.DEVNULL, stderr=subprocess.DEVNULL, timeout=deadline, cwd=work)
             rc = p.returncode
         except subprocess.TimeoutExpired:
             rc = -9
+        if rc < 0:
+            # killed at the deadline (or by a signal): this run produced no output to compare; whether the tool finishes is
+            # C13's subject, a run cut short says nothing about two finished runs differing
+            return (si, oi, k, rc, UNFINISHED)
         try:
             data = open(cmd[-1], "rb").read()
             # a refused grammar leaves the earlier file as it is (that is C19's subject): no output of this run
@@ -2904,6 +2912,14 @@ def check_C14(tier):
         return (si, oi, k, rc, h)
     with ThreadPoolExecutor(max_workers=16) as ex:
         results = list(ex.map(one, jobs))
+    # a run that was cut short is repeated once, alone, with a longer deadline; if it is cut short again it stays out of the comparison
+    unfinished = 0
+    for idx, r in enumerate(results):
+        if r[4] == UNFINISHED:
+            r2 = one(jobs[idx], deadline=3 * DEADLINE14)
+            results[idx] = r2
+            if r2[4] == UNFINISHED:
+                unfinished += 1
     # twice in one process, through the generator entry points
     injobs = []
     for si, (name, src) in enumerate(srcs):
@@ -2925,7 +2941,9 @@ def check_C14(tier):
     violations, samples = [], []
     generated = 0
     for (si, oi), rs in sorted(groups.items()):
-        hs = set(h for _, h in rs)
+        hs = set(h for _, h in rs if h != UNFINISHED)
+        if not hs:
+            continue
         if None not in hs:
             generated += 1
         if len(hs) > 1 and hs != {None}:
@@ -2937,8 +2955,8 @@ def check_C14(tier):
                                           "distinct_outputs": len(hs), "runs": len(rs)}})
     samples.append({"grammar": srcs[0][0], "options": optsets[0], "sha256_of_runs": sorted(set(str(h) for _, h in groups[(0, 0)]))})
     cov = {"evaluations": len(results) + len(injobs), "distinct_nontrivial": generated,
-           "rule": "the repository's example grammars + random grammars with up to 14 tokens/nonterminals, precedence and literals + random rendered files; each with the option sets go, go -u, go -o, go -o -u, typescript; %d runs in fresh processes (Go randomises every map iteration) and 2 runs in one process; outputs compared byte for byte; distinct = (grammar, option set) pairs that generate a file" % N,
-           "samples": samples, "runs_per_pair": N + 2, "trusted_base": TRUSTED,
+           "rule": "the repository's example grammars + random grammars with up to 14 tokens/nonterminals, precedence and literals + random rendered files; each with the option sets go, go -u, go -o, go -o -u, typescript; %d runs in fresh processes (Go randomises every map iteration) and 2 runs in one process; outputs compared byte for byte; distinct = (grammar, option set) pairs that generate a file; wide-row grammars (a tie for the most frequent value in rows of 26 to %d columns); a child run cut short at the %d s deadline is repeated alone and, if cut short again, left out of the comparison (unfinished_runs)" % (N, 260 if tier != "quick" else 140, DEADLINE14),
+           "samples": samples, "runs_per_pair": N + 2, "unfinished_runs": unfinished, "trusted_base": TRUSTED,
            "partial": ["set-invariance of the lookahead stage under reordering of its relation lists is assumed by the order-irrelevance argument and validated by the repeated runs and by C03's oracle comparison"]}
     return common.conclude(pid, tier, C14_LEVEL, proof, [], violations, cov, [])
 
@@ -3456,6 +3474,33 @@ def replay_any(pid, path):
         else:
             bad = r.g.recognizes(w) and r.V.get("isLALR1", ["?"])[0] == "yes" or (f is not None and f[2] == "crash")
         print("REPLAY: %s" % ("STILL FAILS" if bad else "ok now"))
+        return 1 if bad else 0
+    if pid == "C14" and "grammar_file" in d and "options" in d:
+        # the recorded grammar and option set, generated 24 times in fresh processes (16 at a time), bytes compared
+        work = common.tmpdir("replay")
+        f = os.path.join(work, "in.y")
+        open(f, "w", encoding="utf-8").write(d["grammar_file"])
+        target, flags = d["options"]
+
+        def gen1(k):
+            out = os.path.join(work, "out_%d" % k)
+            try:
+                p = subprocess.run([common.BIN + "/yaccgo", "generate"] + list(flags) + [target, f, out], stdout=subprocess.DEVNULL,
+                                   stderr=subprocess.DEVNULL, timeout=1800, cwd=work)
+            except subprocess.TimeoutExpired:
+                return "unfinished"
+            if p.returncode < 0:
+                return "unfinished"
+            try:
+                return hashlib.sha256(open(out, "rb").read()).hexdigest()
+            except FileNotFoundError:
+                return None
+        with ThreadPoolExecutor(max_workers=16) as ex:
+            hs = list(ex.map(gen1, range(24)))
+        done = set(h for h in hs if h != "unfinished")
+        print("REPLAY: %d runs, %d finished, distinct outputs among the finished runs: %d" % (len(hs), len([h for h in hs if h != "unfinished"]), len(done)))
+        bad = len(done) > 1
+        print("REPLAY: %s" % ("STILL FAILS" if bad else "ok now (a difference that shows in fewer than 1 of 24 runs may need the quick check)"))
         return 1 if bad else 0
     if "grammar_file" in d or "grammar" in d:
         src = d.get("grammar_file") or d.get("grammar")
